@@ -227,10 +227,10 @@ static void CO_LssActivateBitTiming_SwitchDelay (void *arg)
 
     lss = (CO_LSS *)arg;
 
-    if (lss->Step == 1) {
+    if (lss->Step == CO_LSS_ACT_DELAY_1) {
         COIfCanInit(&lss->Node->If, lss->Node);
         COIfCanEnable(&lss->Node->If, lss->CfgBaudrate);
-        lss->Step = 2;
+        lss->Step = CO_LSS_ACT_DELAY_2;
     } else {
         CONmtSetMode(&lss->Node->Nmt, CO_PREOP);
         COTmrDelete(&lss->Node->Tmr, lss->Tmr);
@@ -251,7 +251,7 @@ int16_t COLssActivateBitTiming(CO_LSS *lss, CO_IF_FRM *frm)
     COIfCanClose(&lss->Node->If);
     tmr       = &lss->Node->Tmr;
     ticks     = COTmrGetTicks(tmr, delay, CO_TMR_UNIT_1MS);
-    lss->Step = 1;
+    lss->Step = CO_LSS_ACT_DELAY_1;
     lss->Tmr  = COTmrCreate(tmr,
                 0,
                 ticks,
